@@ -98,7 +98,8 @@ fn home_check<'h>(rep: &mut Report, what: &str, who: &str, vb: &Bump, home: &Bum
     }
 }
 
-const KINDS: [&str; 9] = ["append", "append-reverse", "extend-from-drain", "extend_from_slice", "splice-with-drain", "push_str", "from_iter_in-of-other", "clone_in-place-extend", "string-extend-chars"];
+const KINDS: [&str; 15] = ["append", "append-reverse", "extend-from-drain", "extend_from_slice", "splice-with-drain", "push_str", "from_iter_in-of-other", "clone_in-place-extend", "string-extend-chars", "string-extend-strings", "string-extend-strs", "string-add-assign", "string-from_iter_in-of-other", "extend-from-into_iter", "extend_from_slices_copy"];
+const STRING_KINDS: [usize; 6] = [5, 8, 9, 10, 11, 12];
 
 pub fn run(args: &Args, rep: &mut Report) {
     let mut top = Rng::new(Rng::mix(args.seed ^ 0xC20C, args.shard));
@@ -114,18 +115,52 @@ pub fn run(args: &Args, rep: &mut Report) {
         let mut next = 1u64;
         rep.evaluations += 1;
         rep.bump(&format!("c20x.{}", what));
-        if kind == 5 || kind == 8 {
+        if STRING_KINDS.contains(&kind) {
             let mut sa = mk_string(&mut rng, &a);
             let mut sb = mk_string(&mut rng, &b);
             let mut model_a = sa.as_str().to_string();
             let model_b = sb.as_str().to_string();
             let o0 = stats(&b);
-            if kind == 5 {
-                sa.push_str(&sb);
-            } else {
-                sa.extend(sb.chars());
+            match kind {
+                5 => {
+                    sa.push_str(&sb);
+                    model_a.push_str(&model_b);
+                }
+                8 => {
+                    sa.extend(sb.chars());
+                    model_a.push_str(&model_b);
+                }
+                9 => {
+                    // Extend<String<'bump>>: the strings handed over live in the other arena
+                    let parts: Vec<BString> = (0..rng.below(4)).map(|_| mk_string(&mut rng, &b)).collect();
+                    for p in &parts {
+                        model_a.push_str(p.as_str());
+                    }
+                    // (the consumed strings are dropped inside: their own arena may take their buffers back)
+                    sa.extend(parts);
+                }
+                10 => {
+                    let parts: Vec<BString> = (0..rng.below(4)).map(|_| mk_string(&mut rng, &b)).collect();
+                    for p in &parts {
+                        model_a.push_str(p.as_str());
+                    }
+                    let o_mid = stats(&b);
+                    sa.extend(parts.iter().map(|p| p.as_str()));
+                    if stats(&b) != o_mid {
+                        rep.violate("C20", format!("C20/cross-arena/{}/operation-on-one-arena's-string-changed-the-other-arena", what), format!("{:?} -> {:?}", o_mid, stats(&b)));
+                    }
+                }
+                11 => {
+                    sa += sb.as_str();
+                    model_a.push_str(&model_b);
+                }
+                _ => {
+                    let n = BString::from_iter_in(sb.chars(), &a);
+                    model_a = model_b.clone();
+                    sa = n;
+                }
             }
-            model_a.push_str(&model_b);
+            let o0 = if kind == 9 || kind == 10 { stats(&b) } else { o0 };
             let o1 = stats(&b);
             if o0 != o1 {
                 rep.violate("C20", format!("C20/cross-arena/{}/operation-on-one-arena's-string-changed-the-other-arena", what), format!("{:?} -> {:?}", o0, o1));
@@ -207,6 +242,22 @@ pub fn run(args: &Args, rep: &mut Report) {
                 let n = BVec::from_iter_in(vb.iter().copied(), &a);
                 va = n;
                 ma = mb.clone();
+                if stats(&b) != sb0 {
+                    rep.violate("C20", format!("C20/cross-arena/{}/source-arena-changed", what), format!("{:?} -> {:?}", sb0, stats(&b)));
+                }
+            }
+            13 => {
+                // Extend<T> by value from the other arena's vector (consumed)
+                let taken = std::mem::replace(&mut vb, BVec::new_in(&b));
+                va.extend(taken.into_iter());
+                ma.extend(mb.drain(..));
+            }
+            14 => {
+                let extra: Vec<u64> = (0..rng.below(5)).map(|i| 7000 + i as u64).collect();
+                va.extend_from_slices_copy(&[&vb[..], &extra[..], &vb[..]]);
+                ma.extend_from_slice(&mb);
+                ma.extend_from_slice(&extra);
+                ma.extend_from_slice(&mb.clone());
                 if stats(&b) != sb0 {
                     rep.violate("C20", format!("C20/cross-arena/{}/source-arena-changed", what), format!("{:?} -> {:?}", sb0, stats(&b)));
                 }
